@@ -270,6 +270,7 @@ def exec_case(case, facts, src=None):
         files = _files_for(w, opts, cfg, ods)
         core.apply_prestate(w, opts, world, case.get("prestate") or [])
         core.add_bystanders(w, opts)
+        core.add_lock_files(w, {k: v for k, v in files.items() if v})
     else:
         w, files = core.layout_case("c18", world, opts, case.get("prestate"), bystanders=True)
     try:
